@@ -677,6 +677,18 @@ fn main() {
                 base += chunk;
             }
             crashes.set(0);
+            // class representatives of the behavioural phase first, whatever the seed:
+            // the representation battery (values equal as values, other bytes)
+            run_batches(&["reps", "0:0"], beh::n_reps(), 30, Duration::from_secs(240), &mut rep, |rep, idx, ended| {
+                crashes.set(crashes.get() + 1);
+                let case = beh::gen_rep_case(idx);
+                viol(
+                    rep,
+                    &format!("compiling / running a representative script kills the process or never ends: {}", ended_str(ended)),
+                    "crash beh",
+                    beh::case_json(&case),
+                );
+            });
             let mut base = 0u64;
             while base < n_beh && crashes.get() < 6 {
                 let sb = format!("{seed}:{base}");
@@ -697,6 +709,11 @@ fn main() {
             }
             rep.emit();
         }
+        Some("show-rep") => {
+            // print representative <idx> of the battery (script and spec)
+            let c = beh::gen_rep_case(args[2].parse().expect("index"));
+            println!("{}\n// spec: {}", c.script, c.spec.lines().next().unwrap_or(""));
+        }
         Some("zst") => {
             let mut rep = Report::default();
             zst::run(&mut rep);
@@ -715,7 +732,8 @@ fn main() {
             let n: u64 = args[5].parse().expect("n");
             match args[2].as_str() {
                 "layout" => worker_layout(seed, base, from, n),
-                "beh" => beh::worker(seed, base, from, n),
+                "beh" => beh::worker(seed, base, from, n, false),
+                "reps" => beh::worker(seed, base, from, n, true),
                 "beh-one" => beh::replay_in_worker(&args[6]),
                 _ => std::process::exit(64),
             }
